@@ -3,6 +3,7 @@ package main
 
 import (
 	"os"
+	_ "time/tzdata" // the zone database travels with the binary (C08 uses zones with daylight-saving rules)
 
 	"verif/checks"
 	"verif/mc"
